@@ -60,8 +60,9 @@ package clusters
 //@ interface (EndpointPicker).EnableLog(p) props C05, C04
 //@   pure
 //@ interface (EndpointPicker).Pop(p) props C05, C04
-//@   modifies smap(&unbox(p, "*endpointPickStrategy").cluster.loadbalancer), cells("uint64"), popfailed
+//@   modifies smap(&unbox(p, "*endpointPickStrategy").cluster.loadbalancer), cells("uint64"), popfailed, pickedtransport, pickedendpoint
 //@   ensures (result1 == nil ==> result != nil && popfailed == old(popfailed)) && (result1 != nil ==> result == nil && popfailed == old(popfailed) + 1)
+//@   ensures result1 == nil ==> pickedtransport == result.ProxyTransport && pickedendpoint == result.Endpoint
 
 //@ interface (Manager).Get(m, name) props C10
 //@   pure
